@@ -95,7 +95,6 @@ def _parse_attribute_block(
     lines: list[str], atom_attrs: dict[int, dict[str, Any]]
 ) -> None:
     reset_chg_and_rad = False
-    reset_mass = False
 
     additional_attrs: dict = {}
     for line in lines:
@@ -118,7 +117,6 @@ def _parse_attribute_block(
                 MASS,
                 additional_attrs,
             )
-            reset_mass = True
         elif line == "M  END":
             break  # else of this for loop is not entered
     else:
@@ -128,9 +126,10 @@ def _parse_attribute_block(
         # CHG or RAD lines supersede all charge and radical values from the atom block.
         _clear_atom_attribute(CHG, atom_attrs)
         _clear_atom_attribute(RAD, atom_attrs)
-    if reset_mass:
-        # ISO lines supersede all isotope values from the atom block.
-        _clear_atom_attribute(MASS, atom_attrs)
+    # ISO lines do not reset isotope values from the atom block: the mass
+    # difference field is ignored anyway, and the only masses set there come
+    # from the symbols D and T, which keep denoting hydrogen-2 and hydrogen-3
+    # (an ISO entry naming such an atom still overrides its mass below).
 
     _merge_atom_attributes_and_additional_attributes(atom_attrs, additional_attrs)
 
